@@ -1322,11 +1322,23 @@ func psStringBody(alpha []byte, maxLen int) (int, func(c *mc.Ctx, item int) mc.V
 			content[i] = alpha[idx%len(alpha)]
 			idx /= len(alpha)
 		}
+		return psStringRoundTrip(c, content)
+	}
+}
+
+// psStringRoundTrip: String(content).PS() followed by ` 7` must read back as
+// the identical string and 7.
+func psStringRoundTrip(c *mc.Ctx, content []byte) mc.Verdict {
+	{
+		l := len(content)
 		ps := postscript.String(content).PS()
 		intp := postscript.NewInterpreter()
 		err := intp.ExecuteString(ps + " 7")
 		c.Step()
 		r := fmt.Sprintf("String(%q).PS() = %q", content, ps)
+		if len(r) > 400 {
+			r = fmt.Sprintf("String(%d bytes, ending in %q).PS() = %d bytes ending in %q", l, content[max(0, l-12):], len(ps), ps[max(0, len(ps)-24):])
+		}
 		fail := func(class, detail string) mc.Verdict {
 			v := mc.Fail("C04:serialise:string:"+class, detail+" | "+r)
 			v.Render = r
@@ -1350,6 +1362,34 @@ func psStringBody(alpha []byte, maxLen int) (int, func(c *mc.Ctx, item int) mc.V
 			v.Render = r
 		}
 		return v
+	}
+}
+
+// longStringFamily: strings that are longer than anything a serialiser might
+// treat specially (line folding, buffers of 64 / 128 / 256 / 1024 bytes), with a
+// byte that needs escaping at every offset.
+func longStringFamily(budget time.Duration) mc.Family {
+	fillers := []string{"a", "\\", "()", "a\n", "\x80"}
+	tails := []string{"", "\\", "(", ")", "\r", "\n", "()", "\\(", ")(", "\x00", "\xff", "\\\\", "\r\n", "\\n", "\t", "\\\n"}
+	const maxN = 1100
+	return mc.Family{
+		Name: "serialise-long-strings", Items: maxN + 1, Budget: budget,
+		Rule: fmt.Sprintf("item = n in 0..%d; choices: a filler of n bytes (repetitions of one of %d patterns: a letter, a backslash, a balanced pair of parentheses, letter + LF, a byte >= 0x80) x one of %d tails (nothing, backslash, either parenthesis, CR, LF, TAB, NUL, FF-byte and two-byte mixes) x an optional final letter: a byte that needs escaping at every offset 0..%d of the string; String.PS() followed by ` 7` must read back as the identical string and 7; non-trivial = non-empty string", maxN, len(fillers), len(tails), maxN),
+		Body: func(c *mc.Ctx, item int) mc.Verdict {
+			f := fillers[c.Choose(len(fillers))]
+			t := tails[c.Choose(len(tails))]
+			var content []byte
+			for len(content) < item {
+				content = append(content, f...)
+			}
+			content = content[:item]
+			content = append(content, t...)
+			if c.Choose(2) == 1 {
+				content = append(content, 'b')
+			}
+			return psStringRoundTrip(c, content)
+		},
+		Describe: func(item int) string { return fmt.Sprintf("strings with a filler of %d bytes", item) },
 	}
 }
 
@@ -1484,6 +1524,7 @@ func main() {
 			n2, b2 := psStringBody([]byte{'(', ')', '\\', '\r', '\n', 'a'}, 5)
 			fams = append(fams, mc.Family{Name: "serialise-string-special", Items: n2, Body: b2, Budget: budget,
 				Rule: "item = every byte string of length <= 5 over ( ) \\ CR LF a; as above"})
+			fams = append(fams, longStringFamily(budget))
 			n3, b3 := psNameBody()
 			fams = append(fams, mc.Family{Name: "serialise-name", Items: n3, Body: b3, Budget: budget,
 				Rule: "item = every name of length <= 2 over the 213 regular bytes > 32; Name.PS() followed by ` 7` must read back as the identical literal name; non-trivial = non-empty name"})
